@@ -189,6 +189,7 @@ def _lean_gate(modules, need_driver=True):
         # thorough tier: the toolchain's independent re-checker replays the compiled modules through the kernel
         rc, out = run(["lake", "env", "leanchecker"] + list(modules), cwd=LEAN)
         info["leanchecker"] = "ok" if rc == 0 else out[-400:]
+        _GATE["leanchecker"] = "lake env leanchecker " + " ".join(modules) + ": " + ("accepted" if rc == 0 else "REJECTED")
         if rc != 0:
             a["failures"].append("leanchecker rejects the compiled modules: " + out[-300:])
     return not a["failures"], info
@@ -261,8 +262,38 @@ def write_replay(prop, name, obj):
     return path
 
 
+_GATE = {}
+
+
+def guarded(prop, tier, fn):
+    """Runs a check's main().  If the correspondence harness itself cannot complete on the current tree (an exception
+    escapes it), the property is no longer shown to hold: that is reported as a violation without a failing input,
+    naming the correspondence and the exception in the replay file."""
+    import traceback
+    try:
+        return fn()
+    except SystemExit:
+        raise
+    except BaseException as e:      # noqa: BLE001
+        tb = traceback.format_exc()
+        sys.stderr.write(tb)
+        path = write_replay(prop, "correspondence-did-not-complete",
+                            {"kind": "harness-exception", "what": f"the correspondence check of {prop} ({tier} tier) raised {e!r} and did not complete; no failing input was found",
+                             "correspondence": f"bin/check {prop} --tier {tier}", "traceback": tb[-4000:]})
+        try:
+            write_evidence(prop, tier, "proof", {"obligations": 0, "discharged": 0, "evaluations": 0, "distinct_nontrivial": 0,
+                                                  "rule": "the check did not complete", "error": repr(e)}, 0.0, 1)
+        except Exception:
+            pass
+        print(f"VIOLATION property={prop} replay={path} no-failing-input-found")
+        print(f"  the correspondence check raised {e!r} and did not complete (traceback in the replay file)")
+        return 1
+
+
 def write_evidence(prop, tier, level, coverage, wall_s, violations, assumptions=None):
     os.makedirs(EVIDENCE, exist_ok=True)
+    if _GATE.get("leanchecker"):
+        coverage = dict(coverage, independent_recheck=_GATE["leanchecker"])
     ev = {"property_id": prop, "tier": tier, "seed": seed(), "level": level, "coverage": coverage,
           "assumptions": assumptions or [], "wall_s": wall_s, "violations": violations}
     with open(os.path.join(EVIDENCE, prop + ".json"), "w") as f:
